@@ -12,6 +12,9 @@ ASSUME \A p \in PPermsUpTo(5) : PIsPerm(p) /\ PStd(p) = p /\ PFromPoints(PPoints
 ASSUME PStd(<<5, 5, 2, 9>>) = <<1, 2, 0, 3>>
 ASSUME \A p \in PPermsUpTo(4) : PUnrankInLength(PRankInLength(p), Len(p)) = p
 ASSUME \A p, q \in PPermsUpTo(3) : (p # q) => (PPermLess(p, q) # PPermLess(q, p))
+\* containment found by nested quantifiers is containment
+ASSUME \A p \in PPermsUpTo(3), q \in PPermsUpTo(5) : PContainsQ(q, p) <=> PContains(q, p)
+ASSUME \A p \in PPerms(4), q \in PPerms(5) : PContainsQ(q, p) <=> PContains(q, p)
 \* the unshaded mesh pattern is the classical pattern; shading only removes occurrences
 ASSUME \A p \in PPermsUpTo(2), q \in PPermsUpTo(4) : MOcc(MUnshaded(p), q) = POcc(p, q)
 ASSUME \A M \in MAllMesh(1), q \in PPermsUpTo(4) : \A c \in MCells(1) : MOcc(MShade(M, {c}), q) \subseteq MOcc(M, q)
